@@ -45,6 +45,24 @@ func (g *genRns) Config(rng *Rng, tier string) Config {
 	for i := 0; i < nn; i++ {
 		g.names = append(g.names, rnsNamePool[perm[i]])
 	}
+	if rng.Chance(1, 2) {
+		// the same label under the other top-level domain: two independent names
+		n := g.names[rng.Intn(len(g.names))]
+		twin := ""
+		switch {
+		case strings.HasSuffix(n, ".jkl"):
+			twin = strings.TrimSuffix(n, ".jkl") + ".ibc"
+		case strings.HasSuffix(n, ".ibc"):
+			twin = strings.TrimSuffix(n, ".ibc") + ".jkl"
+		}
+		dup := twin == ""
+		for _, x := range g.names {
+			dup = dup || x == twin
+		}
+		if !dup {
+			g.names = append(g.names, twin)
+		}
+	}
 	// some names already exist at genesis with expiries straddling the run
 	for i, n := range g.names {
 		if rng.Chance(1, 2) {
